@@ -414,3 +414,27 @@ def battery_history_variants(seed):
             return dict(what="%s gives %s, expected %s, as call #%d of a sequence on related representations (same raw X,Y with Z,T negated / rescaled): the result depends on earlier calls" % (o["op"], got, want, i),
                         op=o["op"], args=o["args"], init=o["init"], position_in_sequence=i, sequence=[x["op"] for x in ops[max(0, i - 6):i + 1]])
     return None
+
+
+def montgomery_sqrt_structured(seed=1, limit=300):
+    """raw Montgomery limb values a (< l) whose SQUARE a*a - the 512-bit integer a hand-written squaring routine accumulates -
+    has words drawn from {0, r, all-ones}: a = isqrt(T) for such T with all-ones low words (so that a*a keeps T's upper
+    words).  Carries that ripple through an all-ones word of the product are what word-by-word reductions get wrong."""
+    import math
+    rng = random.Random(seed)
+    ones = 2**64 - 1
+    out = []
+    for _ in range(limit * 3):
+        hi = [rng.choice([0, ones, rng.randrange(2**64), ones, rng.randrange(2**64)]) for _ in range(4)]   # words 4..7
+        hi[3] = rng.randrange(1, 2**57)
+        nlow = rng.choice([4, 4, 5, 6])
+        words = [ones] * 4 + hi
+        for i in range(4, nlow):
+            words[i] = ones
+        T = sum(w << (64 * i) for i, w in enumerate(words))
+        a = math.isqrt(T)
+        if 0 < a < L:
+            out.append(a)
+        if len(out) >= limit:
+            break
+    return out
